@@ -606,6 +606,19 @@ fn tex_headers(_: &Ctx) -> BoxedStrategy<RCase> {
 /// Well-formed assets at the upper end of the quantifier's size (about 1 MiB) made of as many small records as fit:
 /// work that grows faster than the input crosses the CPU or memory budget here.
 fn scale(_: &Ctx) -> Vec<RCase> {
+    scale_at(1)
+}
+
+fn growth(_: &Ctx) -> Vec<GrowthCase> {
+    growth_cases(scale_at(1), scale_at(2))
+}
+
+fn prop_growth(c: &GrowthCase, ctx: &Ctx) -> PResult {
+    run_growth(registry(), c, ctx)
+}
+
+/// `div` = 1: full size, 2: every count halved
+fn scale_at(div: usize) -> Vec<RCase> {
     use crate::build::excel::{encode_exd, encode_exh, Cell, Column, Row, Schema, SubRow};
     let mut v = vec![];
     let mut push = |entry: &str, what: &str, args: Vec<Vec<u8>>| {
@@ -615,29 +628,66 @@ fn scale(_: &Ctx) -> Vec<RCase> {
     };
     // index and index2 with 60 000 entries, queried with stored and absent paths
     {
-        let recs: Vec<IndexRecord> = (0..60_000u64).map(|i| IndexRecord { path: format!("exd/d{}/f{}.bin", i % 97, i), dat_id: (i % 8) as u8, offset: 2048 + 128 * i, synonym: false }).collect();
+        let recs: Vec<IndexRecord> = (0..(60_000 / div) as u64).map(|i| IndexRecord { path: format!("exd/d{}/f{}.bin", i % 97, i), dat_id: (i % 8) as u8, offset: 2048 + 128 * i, synonym: false }).collect();
         let q: Vec<u8> = (0..200u64).map(|i| if i % 2 == 0 { format!("exd/d{}/f{}.bin", (i * 293) % 97, i * 293) } else { format!("exd/none/g{}.bin", i) }).collect::<Vec<_>>().join("\n").into_bytes();
         push("index", "index with 60 000 entries", vec![sqpack::index_file(0, -1, false, &recs, 8, true), q.clone(), vec![0]]);
         push("index", "unsorted index2 with 60 000 entries", vec![sqpack::index_file(0, -1, true, &recs, 8, false), q, vec![0]]);
     }
     // sheet page with 50 000 rows; header with 60 000 columns
     {
-        let s = Schema { version: 3, data_offset: 4, columns: vec![Column { ty: 7, offset: 0 }], pages: vec![(0, 50_000)], languages: vec![0], row_count: 50_000 };
-        let rows: Vec<Row> = (0..50_000u32).map(|i| Row { id: i * 3, subrows: vec![SubRow { id: 0, cells: vec![Cell::U32(i)] }], junk: i as u64 }).collect();
+        let s = Schema { version: 3, data_offset: 4, columns: vec![Column { ty: 7, offset: 0 }], pages: vec![(0, (50_000 / div) as u32)], languages: vec![0], row_count: (50_000 / div) as u32 };
+        let rows: Vec<Row> = (0..(50_000 / div) as u32).map(|i| Row { id: i * 3, subrows: vec![SubRow { id: 0, cells: vec![Cell::U32(i)] }], junk: i as u64 }).collect();
         let order: Vec<usize> = (0..rows.len()).collect();
         push("exd", "page with 50 000 rows", vec![encode_exh(&s), encode_exd(&s, &rows, &order, 2)]);
-        let wide = Schema { version: 3, data_offset: 8, columns: (0..60_000).map(|i| Column { ty: 11 + (i % 8) as u8, offset: (i % 8) as u16 }).collect(), pages: vec![(0, 3)], languages: vec![0], row_count: 3 };
-        let rows: Vec<Row> = (0..3u32).map(|i| Row { id: i, subrows: vec![SubRow { id: 0, cells: (0..60_000).map(|k| Cell::Bool((k + i as usize) % 3 == 0)).collect() }], junk: 5 }).collect();
+        let wide = Schema { version: 3, data_offset: 8, columns: (0..60_000 / div).map(|i| Column { ty: 11 + (i % 8) as u8, offset: (i % 8) as u16 }).collect(), pages: vec![(0, 3)], languages: vec![0], row_count: 3 };
+        let rows: Vec<Row> = (0..3u32).map(|i| Row { id: i, subrows: vec![SubRow { id: 0, cells: (0..60_000 / div).map(|k| Cell::Bool((k + i as usize) % 3 == 0)).collect() }], junk: 5 }).collect();
         push("exd", "header with 60 000 packed-bool columns", vec![encode_exh(&wide), encode_exd(&wide, &rows, &[0, 1, 2], 2)]);
         push("exh", "header with 60 000 columns", vec![encode_exh(&wide)]);
     }
+    // SqPack database whose path fields carry no terminator (240 bytes of text each), and one with terminated paths
+    {
+        let n = 4000 / div;
+        for terminated in [false, true] {
+            let mut w = W::new();
+            w.bytes(&sqpack::sqpack_header(0, 0, -1));
+            w.u32(1024).u32(n as u32).zeros(1016);
+            for i in 0..n as u32 {
+                w.zeros(4).u32(128 * i).u32(100 + i).zeros(4).u32(0xAABB_0000 + i).u32(0xCCDD_0000 + i);
+                let mut p = format!("exd/sheet{}.exh", i).into_bytes();
+                p.resize(240, if terminated { 0 } else { b'a' });
+                w.bytes(&p);
+            }
+            w.zeros(64);
+            push("sqdb", if terminated { "4 000 entries" } else { "4 000 entries whose path fields are full (no terminator inside the field)" }, vec![w.b]);
+        }
+    }
+    // deformer with one bone whose name is a megabyte long, and one whose name has lost its terminator
+    {
+        let len = (1usize << 20) / div;
+        for terminated in [true, false] {
+            let mut w = W::new();
+            // one item, one link, then the deformer: bone count, name offset, padding, 12 floats, the name
+            w.i32(1);
+            w.u16(101).i16(0).i32(4 + 12 + 8).zeros(4);
+            w.i16(-1).i16(-1).i16(-1).u16(0);
+            w.i32(1).u16(4 + 2 + 2 + 48).u16(0);
+            for k in 0..12 {
+                w.f32(k as f32);
+            }
+            w.fill(len, b'n');
+            if terminated {
+                w.u8(0);
+            }
+            push("pbd", if terminated { "one bone name of 1 MiB" } else { "one bone name of 1 MiB without terminator" }, vec![w.b]);
+        }
+    }
     // terrain with 200 000 plates
-    push("tera", "200 000 plates", vec![crate::props::c16::seed_tera(&(0..200_000i32).map(|i| ((i % 400 - 200) as i16, (i / 400 - 250) as i16)).collect::<Vec<_>>())]);
+    push("tera", "200 000 plates", vec![crate::props::c16::seed_tera(&(0..(200_000 / div) as i32).map(|i| ((i % 400 - 200) as i16, (i / 400 - 250) as i16)).collect::<Vec<_>>())]);
     // effect file of 80 000 minimal blocks
     {
         let mut w = W::new();
         w.bytes(b"XFVA").u32(0);
-        for i in 0..80_000u32 {
+        for i in 0..(80_000 / div) as u32 {
             w.bytes([&b"xPBC"[..], &b"yPBC"[..], &b"zSBC"[..], &b"RvR\0"[..]][i as usize % 4]).u32(4).f32(i as f32 * 0.5);
         }
         let n = w.len() as u32;
@@ -657,8 +707,8 @@ fn scale(_: &Ctx) -> Vec<RCase> {
         }
         if let Some(mut m) = spec {
             let proto = m.lods[0][0].clone();
-            m.lods[0] = vec![proto; 1500];
-            m.shapes = (0..120).map(|i| crate::build::mdl::ShapeSpec { name: format!("shp{}", i), lods: [vec![((i * 7 % 1500) as u16, vec![(0, 0)])], vec![], vec![]] }).collect();
+            m.lods[0] = vec![proto; 1500 / div];
+            m.shapes = (0..120).map(|i| crate::build::mdl::ShapeSpec { name: format!("shp{}", i), lods: [vec![((i * 7 % (1500 / div)) as u16, vec![(0, 0)])], vec![], vec![]] }).collect();
             m.section_order = vec![];
             push("mdl", "1 500 meshes and 120 shapes", vec![crate::build::mdl::encode(&m).bytes]);
         }
@@ -668,8 +718,8 @@ fn scale(_: &Ctx) -> Vec<RCase> {
                 continue;
             }
             let proto = s.nodes[0].clone();
-            s.nodes = (0..12_000u32).map(|i| crate::build::material::NodeSpec { selector: 0x1000_0000 + i, ..proto.clone() }).collect();
-            s.aliases = (0..2_000u32).map(|i| (0x2000_0000 + i, (i * 5) % 12_000)).collect();
+            s.nodes = (0..(12_000 / div) as u32).map(|i| crate::build::material::NodeSpec { selector: 0x1000_0000 + i, ..proto.clone() }).collect();
+            s.aliases = (0..(2_000 / div) as u32).map(|i| (0x2000_0000 + i, (i * 5) % (12_000 / div) as u32)).collect();
             let sels: Vec<u8> = (0..256u32).flat_map(|i| (0x1000_0000 + i * 46).to_le_bytes()).chain((0..64u32).flat_map(|i| (0x2000_0000 + i * 31).to_le_bytes())).collect();
             push("shpk", "12 000 nodes and 2 000 aliases", vec![crate::build::material::encode_shpk(&s), sels]);
             break;
@@ -956,7 +1006,7 @@ fn post(_: &Ctx) {
 pub fn property() -> Property {
     Property {
         id: "C18",
-        rule: "cases = (entry point, valid seed asset or archive, corruption) executed in an isolated worker process. Entry points: from_existing of model, material, shader package (+find_node for every listed and some absent selectors), texture, EXH, EXD (+read_row for every indexed id, page ids and absent ids; header and page corrupted separately), skeleton, deformer (+get_deform_matrices for all ordered pairs of body ids), scaling table, terrain, staining template, dictionary, layer group (empty, fixture, and one with instance objects), effect, uld/sgb/scd/hwc/iwc/tmb/skp/schd/phyb/pap headers, SqPack database; SqPackIndex::from_existing+exists/find_entry, SqPackData::read_from_offset at entry and stray offsets, GameData::from_existing/exists/find_offset/extract on a synthetic installation. Seeds: output of the C05/C06/C13/C14/C16 generators for fixed internal seeds, the repository's sample model and layer group, hand-built files for the remaining formats, an installation with standard/texture/model entries, index and index2, and an expansion, a dat file whose stored blocks have tens of kilobytes of file behind them, a dat file whose entries' tables promise gigabytes without the data. Corruptions: every truncation point; every offset x width {1,2,4,8} x value {0, 1, 0x7F.., 0x80.., 0xFF.., +1, -1} x byte order; random mutation compositions; random blobs behind intact magic; well-formed assets of about 1 MiB made of as many small records as fit (index / index2 with 60 000 entries, a sheet page with 50 000 rows, a header with 60 000 columns, a terrain with 200 000 plates, an effect file of 80 000 blocks, a model with 1 500 meshes and 120 shapes, a shader package with 12 000 nodes) against the CPU and memory budgets; texture headers generated from the grammar (every format, each dimension from boundary values or free, any attribute, payload absent / short / present); shader packages queried with the selectors of the intact package's nodes and aliases (every package has an alias of its last node); cyclic links (every deformer link / item link to every node, dictionary inner nodes and entry fields); archive fault sequences before opening and between open and read (truncation at every structure boundary +-1, every header field corrupted, files removed / replaced by directories / emptied, stray and oddly named files and directories incl. non-UTF-8 names and names made of multi-byte characters, missing version files, expansion removed while open); leak probes (damaged deflate streams and wrong declared sizes in standard, texture and model entries, 120 repetitions each, growth measured over the last 90). Oracle: worker outcome must be value or ordinary failure -- no panic, abort, stack overflow, more than 10 s CPU, live heap above max(64 MiB, 256 x input), or per-call heap growth. Non-trivial: input differs from the seed, is non-empty and keeps the seed's magic; distinct by hash of (entry, arguments).",
+        rule: "cases = (entry point, valid seed asset or archive, corruption) executed in an isolated worker process. Entry points: from_existing of model, material, shader package (+find_node for every listed and some absent selectors), texture, EXH, EXD (+read_row for every indexed id, page ids and absent ids; header and page corrupted separately), skeleton, deformer (+get_deform_matrices for all ordered pairs of body ids), scaling table, terrain, staining template, dictionary, layer group (empty, fixture, and one with instance objects), effect, uld/sgb/scd/hwc/iwc/tmb/skp/schd/phyb/pap headers, SqPack database; SqPackIndex::from_existing+exists/find_entry, SqPackData::read_from_offset at entry and stray offsets, GameData::from_existing/exists/find_offset/extract on a synthetic installation. Seeds: output of the C05/C06/C13/C14/C16 generators for fixed internal seeds, the repository's sample model and layer group, hand-built files for the remaining formats, an installation with standard/texture/model entries, index and index2, and an expansion, a dat file whose stored blocks have tens of kilobytes of file behind them, a dat file whose entries' tables promise gigabytes without the data. Corruptions: every truncation point; every offset x width {1,2,4,8} x value {0, 1, 0x7F.., 0x80.., 0xFF.., +1, -1} x byte order; random mutation compositions; random blobs behind intact magic; well-formed assets of about 1 MiB made of as many small records as fit (index / index2 with 60 000 entries, a sheet page with 50 000 rows, a header with 60 000 columns, a terrain with 200 000 plates, an effect file of 80 000 blocks, a model with 1 500 meshes and 120 shapes, a shader package with 12 000 nodes, a SqPack database of 4 000 entries with and without terminators in the path fields, a deformer with one bone name of 1 MiB) against the CPU and memory budgets, and each against itself at half size (at least 1 s of CPU and more than 3.2 times the half-size time = work growing faster than the input); texture headers generated from the grammar (every format, each dimension from boundary values or free, any attribute, payload absent / short / present); shader packages queried with the selectors of the intact package's nodes and aliases (every package has an alias of its last node); cyclic links (every deformer link / item link to every node, dictionary inner nodes and entry fields); archive fault sequences before opening and between open and read (truncation at every structure boundary +-1, every header field corrupted, files removed / replaced by directories / emptied, stray and oddly named files and directories incl. non-UTF-8 names and names made of multi-byte characters, missing version files, expansion removed while open); leak probes (damaged deflate streams and wrong declared sizes in standard, texture and model entries, 120 repetitions each, growth measured over the last 90). Oracle: worker outcome must be value or ordinary failure -- no panic, abort, stack overflow, more than 10 s CPU, live heap above max(64 MiB, 256 x input), or per-call heap growth. Non-trivial: input differs from the seed, is non-empty and keeps the seed's magic; distinct by hash of (entry, arguments).",
         assumptions: &["files a case writes are capped at 16 MiB by RLIMIT_FSIZE", "wall-clock time is not judged; the CPU budget is 10 s per case", "stack overflow is observed on the worker's 8 MiB main-thread stack"],
         pre: None,
         parts: vec![
@@ -967,6 +1017,7 @@ pub fn property() -> Property {
             Box::new(Part { name: "truncations", driver: Driver::Enum(truncations), prop, exhaustive: true }),
             Box::new(Part { name: "fields", driver: Driver::Enum(fields), prop, exhaustive: true }),
             Box::new(Part { name: "scale", driver: Driver::Enum(scale), prop, exhaustive: true }),
+            Box::new(Part { name: "scale-growth", driver: Driver::Enum(growth), prop: prop_growth, exhaustive: true }),
             Box::new(Part { name: "tex-headers", driver: Driver::Gen(tex_headers, 20_000, 600_000), prop, exhaustive: false }),
             Box::new(Part { name: "archive-random", driver: Driver::Gen(archive_random, 3_000, 150_000), prop, exhaustive: false }),
             Box::new(Part { name: "random-mutants", driver: Driver::Gen(mutants, 60_000, 4_000_000), prop, exhaustive: false }),
